@@ -310,3 +310,15 @@ Fixpoint apply_cols (cols : list (Qc * Qc)) (e : list Qc) : Qc * Qc :=
 
 (* excitations in the order of the columns: xi_k0, xi_k1 for k = 0, 1, ... *)
 Definition flat_xi (xis : list (Qc * Qc)) : list Qc := flat_map (fun p => [fst p; snd p]) xis.
+
+(* model classes (WienerProcess / OrnsteinUhlenbeckProcess) with the documented forms of x0: the
+   response rows start with the coefficient c0 of the start value's own latent excitation
+   (0 for a fixed start value -- also the value 0 --, sigma_0 for the steady-state start x0=None of the
+   OU process, the prior's standard deviation for a (mean, std) tuple or a NormalPrior model) *)
+Definition chk_ou_start_rows (tol c0 : Q) (sigma e q : list Q) (obs : list (list Q)) : bool :=
+  list_eqb (row_match (qc_close (Q2Qc tol)) 0)
+           (srows [Q2Qc c0] (qcl e) (map2 Qcmult (qcl sigma) (qcl q))) (map qcl obs).
+
+Definition chk_wiener_start_rows (tol c0 : Q) (sigma s : list Q) (obs : list (list Q)) : bool :=
+  list_eqb (row_match (qc_close (Q2Qc tol)) 0)
+           (srows [Q2Qc c0] (repeat 1 (length s)) (map2 Qcmult (qcl s) (qcl sigma))) (map qcl obs).
